@@ -22,12 +22,13 @@ pub fn check(tier: Tier) -> Check {
         Part::new("C02/publish", json!({"full": t}), 0, tier.pick(40, 600)),
         Part::new("C02/disconnect", json!({}), 0, 60),
         Part::new("C02/values", json!({}), 0, 120),
+        Part::new("C02/lengths", json!({"full": t}), 0, tier.pick(60, 600)),
     ];
     Check {
         also_rel: false,
         property: "C02",
         level: "exploration",
-        rule: "every server packet type x subsets of the properties legal for it (CONNACK: quick = all subsets of size <=4 (<=3 in every order) and >=14 in identity/reverse/rotated order, thorough = all 2^17 subsets x 3 orders; others: all subsets) x repeated user properties with duplicate keys (adjacent and separated by another key) x every legal reason code x short forms (PUBACK family 2/3/>=4, AUTH 0, DISCONNECT 0/1) x packet identifiers {1,127,128,255,256,16383,16384,65535} and subscription identifiers up to 268435455 (counters preset by the hook) x payload sizes crossing the 512/1024-byte buffer steps x boundary string lengths; read back through ConnectRsp/ConnectError/AuthRsp/SubscribeRsp/UnsubscribeRsp/PublishData/Puback-Pubrec-PubcompError/Disconnected accessors; distinct_nontrivial = distinct packets whose values were read back".into(),
+        rule: "every server packet type x subsets of the properties legal for it (CONNACK: quick = all subsets of size <=4 (<=3 in every order) and >=14 in identity/reverse/rotated order, thorough = all 2^17 subsets x 3 orders; others: all subsets) x repeated user properties with duplicate keys (adjacent and separated by another key) x every legal reason code x short forms (PUBACK family 2/3/>=4, AUTH 0, DISCONNECT 0/1) x packet identifiers {1,127,128,255,256,16383,16384,65535} and subscription identifiers up to 268435455 (counters preset by the hook) x payload sizes crossing the 512/1024-byte buffer steps x boundary string lengths x a sweep in which, for every packet type, the property length takes every value in 118..=138 (thorough: also 16374..=16394) while the part after the properties (reason-code list of 1, 3, 118..=131 entries, payload, nothing) moves the remaining length across its own 127/128 (16383/16384) boundary independently; read back through ConnectRsp/ConnectError/AuthRsp/SubscribeRsp/UnsubscribeRsp/PublishData/Puback-Pubrec-PubcompError/Disconnected accessors; distinct_nontrivial = distinct packets whose values were read back".into(),
         assumptions: vec![
             "only property sets and reason codes the standard allows for the packet type; minimal variable byte integers".into(),
             "a successful CONNACK announcing Subscription Identifiers unavailable is excluded (documented assertion)".into(),
@@ -509,6 +510,134 @@ pub fn scenario(name: &str, params: &Value) -> Scenario {
             sys.finish();
             sys.report(ex, &["puback", "suback", "server-disconnect", "message-dispatched"]);
         }),
+        "C02/lengths" => {
+            let full = params["full"].as_bool().unwrap_or(false);
+            Box::new(move |chz, ex| {
+                // The property length and the remaining length cross their encoding boundaries at
+                // different points: a reason string sized so that the property length is `pl`, and
+                // a tail (reason codes / payload) of `tail` bytes behind the properties.
+                let ty = chz.choose(10);
+                let mut pls: Vec<usize> = (118..=138).collect();
+                if full {
+                    pls.extend(16374..=16394);
+                } else {
+                    pls.extend([16382, 16383, 16384, 16385]);
+                }
+                let pl = pls[chz.choose(pls.len())];
+                let tails: &[usize] = match ty {
+                    6 | 7 => &[1, 3, 118, 119, 120, 121, 122, 123, 124, 125, 126, 127, 128, 129, 130, 131],
+                    8 => &[0, 1, 9, 120, 130],
+                    _ => &[0],
+                };
+                let tail = tails[chz.choose(tails.len())];
+                // reason string: id (1) + length prefix (2) + text
+                let text = s(pl - 3);
+                let mut sys = Sys::new("C02", &name, chz);
+                sys.params = params.clone();
+                match ty {
+                    0 | 1 => {
+                        let ok = ty == 0;
+                        sys.connect_with(
+                            ConnectSpec::default(),
+                            SPacket::Connack {
+                                session_present: false,
+                                reason: if ok { 0 } else { 0x87 },
+                                props: vec![Prop::str(31, &text)],
+                            },
+                        );
+                    }
+                    2 => {
+                        // method "m" takes 4 bytes, the reason string the rest
+                        let text = s(pl - 3 - 4);
+                        sys.connect_with(
+                            ConnectSpec {
+                                auth_method: Some("m".into()),
+                                auth_data: Some(vec![1]),
+                                ..Default::default()
+                            },
+                            SPacket::Auth {
+                                reason: 0x18,
+                                props: vec![Prop::str(21, "m"), Prop::str(31, &text)],
+                                form: 2,
+                            },
+                        );
+                    }
+                    3 | 4 | 5 => {
+                        sys.bring_up(vec![]);
+                        let q = if ty == 3 { 1 } else { 2 };
+                        sys.apply(Ev::Start(OpSpec::Publish(PublishSpec::simple(q, "t", b"x"))));
+                        if ty == 5 && !sys.dead {
+                            let rec = sys.ack_for(0, 0, "").unwrap();
+                            sys.apply(Ev::Deliver(rec));
+                        }
+                        sys.apply(Ev::Deliver(SPacket::Ack {
+                            ty: [4u8, 5, 7][ty - 3],
+                            pid: 1,
+                            reason: if ty == 5 { 0x92 } else { 0x80 },
+                            props: vec![Prop::str(31, &text)],
+                            form: 4,
+                        }));
+                    }
+                    6 => {
+                        sys.bring_up(vec![]);
+                        sys.apply(Ev::Start(OpSpec::Subscribe(SubscribeSpec {
+                            filters: (0..tail).map(|i| FilterSpec::plain(&format!("f{}", i))).collect(),
+                            user_props: vec![],
+                        })));
+                        sys.apply(Ev::Deliver(SPacket::Suback {
+                            pid: 1,
+                            props: vec![Prop::str(31, &text)],
+                            reasons: (0..tail).map(|i| SUBACK_REASONS[(i * 5 + tail) % SUBACK_REASONS.len()]).collect(),
+                        }));
+                    }
+                    7 => {
+                        sys.bring_up(vec![]);
+                        sys.apply(Ev::Start(OpSpec::Unsubscribe(UnsubscribeSpec {
+                            filters: (0..tail).map(|i| format!("f{}", i)).collect(),
+                            user_props: vec![],
+                        })));
+                        sys.apply(Ev::Deliver(SPacket::Unsuback {
+                            pid: 1,
+                            props: vec![Prop::str(31, &text)],
+                            reasons: (0..tail).map(|i| UNSUBACK_REASONS[(i * 3 + tail) % UNSUBACK_REASONS.len()]).collect(),
+                        }));
+                    }
+                    8 => {
+                        sys.bring_up(vec![]);
+                        sys.apply(Ev::Start(OpSpec::Subscribe(SubscribeSpec::simple("s"))));
+                        if !sys.dead {
+                            let ack = sys.ack_for(0, 0, "").unwrap();
+                            sys.apply(Ev::Deliver(ack));
+                            sys.apply(Ev::TakeStream(0));
+                        }
+                        // subscription identifier 1 takes 2 bytes, the content type the rest
+                        let text = s(pl - 3 - 2);
+                        sys.apply(Ev::Deliver(SPacket::Publish {
+                            dup: false,
+                            qos: 1,
+                            retain: false,
+                            topic: "t".into(),
+                            pid: Some(3),
+                            props: vec![Prop::var(P_SUBSCRIPTION_ID, 1), Prop::str(P_CONTENT_TYPE, &text)],
+                            payload: (0..tail).map(|i| i as u8).collect(),
+                        }));
+                    }
+                    _ => {
+                        sys.bring_up(vec![]);
+                        sys.apply(Ev::Deliver(SPacket::Disconnect {
+                            reason: 0x8b,
+                            props: vec![Prop::str(31, &text)],
+                            form: 2,
+                        }));
+                    }
+                }
+                sys.finish();
+                sys.report(
+                    ex,
+                    &["connect-result", "connect-auth", "puback", "pubrec-fail", "pubcomp", "suback", "unsuback", "message-dispatched", "server-disconnect"],
+                );
+            })
+        }
         _ => {
             eprintln!("MACHINERY: unknown scenario {}", name);
             std::process::exit(2);
